@@ -5,6 +5,8 @@ package main
 
 import (
 	"database/sql"
+
+	sqlite3 "github.com/mattn/go-sqlite3"
 	"encoding/binary"
 	"os"
 	"reflect"
@@ -55,6 +57,41 @@ func closeDB(d *db.DB) {
 	if h, ok := reflect.NewAt(f.Type(), unsafe.Pointer(f.UnsafeAddr())).Elem().Interface().(*sql.DB); ok && h != nil {
 		h.Close()
 	}
+}
+
+// verifCommitHook is called by SQLite when a write statement of a hooked database is about to commit: the database file
+// still holds the state before that statement, i.e. what a process killed at this very point leaves behind.
+var verifCommitHook func()
+
+func init() {
+	sql.Register("sqlite3_verif", &sqlite3.SQLiteDriver{ConnectHook: func(c *sqlite3.SQLiteConn) error {
+		c.RegisterCommitHook(func() int {
+			if verifCommitHook != nil {
+				verifCommitHook()
+			}
+			return 0
+		})
+		return nil
+	}})
+}
+
+// hookDB swaps the connection pool of an opened database for one whose connections report every commit
+// (pkg/db opens with the plain driver name; the *sql.DB sits in an unexported field).
+func hookDB(d *db.DB, path string) {
+	f := reflect.ValueOf(d).Elem().FieldByName("db")
+	if !f.IsValid() {
+		panic("pkg/db.DB has no field db")
+	}
+	h, err := sql.Open("sqlite3_verif", path)
+	if err != nil {
+		panic(err)
+	}
+	h.SetMaxOpenConns(1)
+	slot := reflect.NewAt(f.Type(), unsafe.Pointer(f.UnsafeAddr())).Elem()
+	if old, ok := slot.Interface().(*sql.DB); ok && old != nil {
+		old.Close()
+	}
+	slot.Set(reflect.ValueOf(h))
 }
 
 // regInfo is the metadata a Demon sends at registration (DemonMetaData in Demon.c).
